@@ -55,6 +55,17 @@ pub(crate) fn crop_source_window(
     // Keep snippet coordinates aligned with parsers that ignore a leading UTF-8 BOM.
     let text = text.strip_prefix('\u{FEFF}').unwrap_or(text);
 
+    // The YAML scanner counts a CR that is not followed by LF as a line break too, and
+    // `Location::line` follows it. Everything below (and later rendering of the stored
+    // window) splits lines at LF, so turn such breaks into LF (same byte length).
+    let lone_cr_as_lf;
+    let text = if has_lone_cr(text) {
+        lone_cr_as_lf = lone_cr_to_lf(text);
+        lone_cr_as_lf.as_str()
+    } else {
+        text
+    };
+
     // Map absolute YAML line to the coordinates within `text`.
     let absolute_row = location.line as usize;
     let relative_row = match mapping {
@@ -181,6 +192,19 @@ pub(crate) fn crop_source_window(
     };
 
     (cropped, start_line)
+}
+
+/// Is there a CR that is not the first half of a CRLF pair?
+fn has_lone_cr(text: &str) -> bool {
+    text.split("\r\n").any(|part| part.contains('\r'))
+}
+
+/// Replace every CR that is not followed by LF with LF (one byte each, so offsets stay valid).
+fn lone_cr_to_lf(text: &str) -> String {
+    text.split("\r\n")
+        .map(|part| part.replace('\r', "\n"))
+        .collect::<Vec<_>>()
+        .join("\r\n")
 }
 
 #[cfg(test)]
